@@ -9,36 +9,36 @@ Section Fault.
 Variable K : cfg.
 
 (* ---------- C10: the decode loop never lets an exception escape when the catch-all is there *)
-Lemma read_loop_no_escape fuel tn : c_catch_all K = true -> forall x total notes,
-  snd (read_loop K fuel tn x total notes) = false.
+Lemma read_loop_no_escape fuel lim tn : c_catch_all K = true -> forall x total notes,
+  snd (read_loop K fuel lim tn x total notes) = false.
 Proof.
   intro Hc. induction fuel as [|f IH]; intros x total notes; cbn [read_loop]; [reflexivity|].
   destruct (prepare_read ideal (c_cap K) (q x)) as [q1 [off|]]; [|reflexivity].
   destruct (qev x) as [|e rest]; [reflexivity|].
   destruct (negb (c_grace K =? 0) && (tn <? ets e)); [reflexivity|].
   rewrite Hc.
-  assert (Hgo : forall c,
-    let x1 := set_thr_tbuf (set_thr_q x (finish_read ideal q1 (esz e)) rest) (tbuf x ++ [e]) c in
-    snd (if (total + esz e <? c_cap K) && (N.of_nat (length (tbuf x1)) <? c_hard K)
-         then read_loop K f tn x1 (total + esz e) (notes ++ fmt_notes e)
+  assert (Hgo : forall c g,
+    let x1 := sh g (set_thr_tbuf (set_thr_q x (finish_read ideal q1 (esz e)) rest) (tbuf x ++ [e]) c) in
+    snd (if (total + esz e <? lim) && (N.of_nat (length (tbuf x1)) <? c_hard K)
+         then read_loop K f lim tn x1 (total + esz e) (notes ++ fmt_notes e)
          else (x1, total + esz e, notes ++ fmt_notes e, false)) = false).
-  { intros c x1. destruct ((total + esz e <? c_cap K) && (N.of_nat (length (tbuf x1)) <? c_hard K)); [apply IH|reflexivity]. }
+  { intros c g x1. destruct ((total + esz e <? lim) && (N.of_nat (length (tbuf x1)) <? c_hard K)); [apply IH|reflexivity]. }
   destruct (efmt e); destruct (ekind e); apply Hgo.
 Qed.
 
 (* the head record is consumed whatever its formatter does: one iteration of the loop on a readable
    record within the timestamp limit moves it to the transit buffer *)
-Lemma read_one_consumes tn x e rest q1 off : c_catch_all K = true ->
+Lemma read_one_consumes lim tn x e rest q1 off : c_catch_all K = true ->
   prepare_read ideal (c_cap K) (q x) = (q1, Some off) -> qev x = e :: rest ->
   (negb (c_grace K =? 0) && (tn <? ets e)) = false ->
-  exists x1 total notes, read_loop K 1 tn x 0 [] = (x1, total, notes, false) /\
+  exists x1 total notes, read_loop K 1 lim tn x 0 [] = (x1, total, notes, false) /\
     qev x1 = rest /\ tbuf x1 = tbuf x ++ [e] /\ total = esz e /\ notes = fmt_notes e.
 Proof.
   intros Hc Hp Hq Ht. cbn [read_loop]. rewrite Hp, Hq, Ht, Hc.
   set (cap1 := if tcap x =? N.of_nat (length (tbuf x)) then 2 * tcap x else tcap x).
-  exists (set_thr_tbuf (set_thr_q x (finish_read ideal q1 (esz e)) rest) (tbuf x ++ [e]) cap1), (esz e), (fmt_notes e).
+  exists (sh (fun u => u_finish_read (esz e) (u_prepare_read K u)) (set_thr_tbuf (set_thr_q x (finish_read ideal q1 (esz e)) rest) (tbuf x ++ [e]) cap1)), (esz e), (fmt_notes e).
   destruct (efmt e); destruct (ekind e);
-    (destruct ((0 + esz e <? c_cap K) && _); cbn; repeat split; reflexivity).
+    (destruct ((0 + esz e <? lim) && _); cbn; repeat split; reflexivity).
 Qed.
 
 (* a failing formatter produces exactly one notification, none otherwise *)
